@@ -177,8 +177,19 @@ def one_case(sess, r, rng, ci, canon, spelled, uri, transport, repl, host, port,
                 c('extend 0 0 1')
     else:
         c('async_new 0 0 %s' % ('sign' if api == 'async-sign' else 'extend'))
+        if ci % 4 == 1:
+            # an earlier, REFUSED endpoint (no credentials anywhere / no port for the TCP transport) on this service object: what the next call
+            # says and does is decided by its own arguments
+            bad, bu, bk = rng.choice([('ksi+tcp://refused.example:5555', '-', '-'), ('ksi+http://refused.example:5556/x', '-', '-'), ('ksi+tcp://refused.example', 'ruser', 'rkey'), ('KSI+TCP://refused.example:5557', 'ruser', '-')])
+            q0 = c('async_endpoint 0 set %s %s %s' % (bad, bu, bk))
+            r.count('async_earlier_endpoint_%s' % ('accepted' if q0.rc == 0 else 'refused'))
+            if q0.rc != 0:
+                replay = 'refused-before=%s ' % bad + replay
+                prior_refused = True
         q = c('async_endpoint 0 set %s %s %s' % (uri, user, key))
         setrc = q.rc
+        if setrc == 0x10a and locals().get('prior_refused'):
+            r.viol('async:endpoint-refused-after-an-earlier-refused-one', 'KSI_AsyncService_setEndpoint answers KSI_INVALID_STATE for %s because an earlier call on the same service was refused' % canon, replay)
         if setrc == 0:
             if api == 'async-sign':
                 c('async_add 0 0 sign %s 0 t' % R.H(1, b'c20').hex())
